@@ -1,6 +1,8 @@
 import Mouette.Generated.C18Src
 import Mouette.Lemmas.C18Lemmas
 import Mouette.Lemmas.C18Hist
+import Mouette.Lemmas.C18Bridge
+import Mouette.Lemmas.C18Vertex
 /-
 C18, round 4 — lemmas for the bridges `Generated.C18S.f = FFS.fM` and for the theorems about the normal forms
 (gather / scatter algebra, the partition, the loop of `normalize`).
@@ -293,5 +295,322 @@ theorem flagSingulsFaces_bridge (P : FlagFacesIn) (er : FFH.Attr) (old : Option 
         then acc ++ [(v, (holonomyAdjM P (FFH.lookup er) v * (2 : Rat)) / ((1 : Rat) / 2))] else acc) = _
   rw [index_scale_bridge]
   split <;> rfl
+
+/-! ## vertex-based `_initialize_variables` -/
+theorem guard_iff (N : Num) (hc : AbsContract N) (s : Cpx) :
+    (((1 : Rat) / 10000000000) < N.abs s) ↔ (C18.vertexGuardSq < normSq s) := by
+  unfold C18.vertexGuardSq
+  rw [← hc.sq s]
+  have h0 := hc.nonneg s
+  have ht : (0 : Rat) < (1 : Rat) / 10000000000 := by norm_num
+  constructor
+  · intro h; nlinarith
+  · intro h
+    by_contra hn
+    have hle : N.abs s ≤ (1 : Rat) / 10000000000 := not_lt.mp hn
+    have : N.abs s * N.abs s ≤ ((1 : Rat) / 10000000000) * ((1 : Rat) / 10000000000) := by nlinarith
+    linarith
+
+/-- one accumulation step of the round-1 model `FF.initVerts` -/
+def modelStep (order : Nat) (guarded : Bool) (var : Vec) (w : Nat × Cpx) : Vec :=
+  if guarded && !(decide (C18.vertexGuardSq < normSq (cadd (var.getD w.1 czero) (cpow w.2 order)))) then var
+  else var.set w.1 (cadd (var.getD w.1 czero) (cpow w.2 order))
+
+theorem initVerts_eq_foldl (order n : Nat) (guarded : Bool) (cs : List (Nat × Cpx)) :
+    initVerts order n guarded cs = cs.foldl (modelStep order guarded) (List.replicate n czero) := rfl
+
+theorem guardedStep_eq (N : Num) (hc : AbsContract N) (order : Nat) (var : Vec) (X : Nat) (u : Cpx) :
+    (if ((1 : Rat) / 10000000000) < N.abs (cadd (var.getD X czero) (cpow u order))
+      then var.set X (cadd (var.getD X czero) (cpow u order)) else var) = modelStep order true var (X, u) := by
+  unfold modelStep
+  by_cases h : ((1 : Rat) / 10000000000) < N.abs (cadd (var.getD X czero) (cpow u order))
+  · have h2 := (guard_iff N hc _).mp h
+    rw [if_pos h]
+    show _ = if (true && !(decide (C18.vertexGuardSq < normSq (cadd (var.getD X czero) (cpow u order))))) = true then _ else _
+    rw [decide_eq_true h2]
+    rfl
+  · have h2 : ¬ (C18.vertexGuardSq < normSq (cadd (var.getD X czero) (cpow u order))) := fun h' => h ((guard_iff N hc _).mpr h')
+    rw [if_neg h]
+    show _ = if (true && !(decide (C18.vertexGuardSq < normSq (cadd (var.getD X czero) (cpow u order))))) = true then _ else _
+    rw [decide_eq_false h2]
+    rfl
+
+theorem accGuarded_bridge (N : Num) (hc : AbsContract N) (order : Nat) (proj : Nat → Nat → Cpx) : ∀ (fes : List VFeatEdge) (var : Vec),
+    fes.foldl (fun var it =>
+        let var := if ((1 : Rat) / 10000000000) < N.abs (cadd (var.getD it.b czero) (cpow (cdivR (proj it.id it.b) (N.abs (proj it.id it.b))) order))
+          then var.set it.b (cadd (var.getD it.b czero) (cpow (cdivR (proj it.id it.b) (N.abs (proj it.id it.b))) order)) else var
+        if ((1 : Rat) / 10000000000) < N.abs (cadd (var.getD it.a czero) (cpow (cdivR (proj it.id it.a) (N.abs (proj it.id it.a))) order))
+          then var.set it.a (cadd (var.getD it.a czero) (cpow (cdivR (proj it.id it.a) (N.abs (proj it.id it.a))) order)) else var) var
+      = (contribsGuarded N proj fes).foldl (modelStep order true) var
+  | [], _ => rfl
+  | e :: es, var => by
+    simp only [List.foldl_cons, contribsGuarded, List.map_cons, List.flatten_cons, List.foldl_append, List.foldl_nil]
+    rw [guardedStep_eq N hc, guardedStep_eq N hc]
+    exact accGuarded_bridge N hc order proj es _
+
+theorem accPlain_bridge (order : Nat) (rect : Nat → Nat → Cpx) : ∀ (fes : List VFeatEdge) (var : Vec),
+    fes.foldl (fun var it =>
+        let var := var.set it.a (cadd (var.getD it.a czero) (cpow (rect it.a it.b) order))
+        var.set it.b (cadd (var.getD it.b czero) (cpow (rect it.b it.a) order))) var
+      = (contribsPlain rect fes).foldl (modelStep order false) var
+  | [], _ => rfl
+  | e :: es, var => by
+    simp only [List.foldl_cons, contribsPlain, List.map_cons, List.flatten_cons, List.foldl_append, List.foldl_nil]
+    have h : ∀ (v : Vec) (w : Nat × Cpx), modelStep order false v w = v.set w.1 (cadd (v.getD w.1 czero) (cpow w.2 order)) := by
+      intro v w; simp [modelStep]
+    rw [h, h]
+    exact accPlain_bridge order rect es _
+
+theorem abs_czero (N : Num) (hc : AbsContract N) : N.abs czero = 0 := by
+  have h := hc.sq czero
+  have : normSq czero = 0 := by simp [normSq, czero]
+  rw [this] at h
+  exact mul_self_eq_zero.mp h
+
+theorem getD_map_abs (N : Num) (hc : AbsContract N) (v : Vec) (i : Nat) : (v.map N.abs).getD i 0 = N.abs (v.getD i czero) := by
+  by_cases h : i < v.length
+  · simp [List.getD, h]
+  · have h' : v.length ≤ i := Nat.le_of_not_lt h
+    simp [List.getD, h', abs_czero N hc]
+
+/-- the normalisation loop reads `abs(var[A])` at loop time; on a duplicate-free `feature_vertices` that is `abs` of the accumulated value -/
+theorem normDyn_bridge (N : Num) (hc : AbsContract N) (var0 : Vec) : ∀ (featV : List Nat) (v : Vec), featV.Nodup →
+    (∀ A ∈ featV, v.getD A czero = var0.getD A czero) →
+    featV.foldl (fun var A => if ((1 : Rat) / 100000000) < N.abs (var.getD A czero)
+        then var.set A (cdivR (var.getD A czero) (N.abs (var.getD A czero))) else var) v
+      = FFV.normalizeFeature v featV (var0.map N.abs)
+  | [], _, _, _ => rfl
+  | A :: rest, v, hnd, hinv => by
+    have hnd' := List.nodup_cons.mp hnd
+    simp only [List.foldl_cons, FFV.normalizeFeature]
+    rw [getD_map_abs N hc, ← hinv A (by simp)]
+    have hthr : FFV.featThreshold = (1 : Rat) / 100000000 := rfl
+    rw [hthr]
+    have ih := fun v' h' => normDyn_bridge N hc var0 rest v' hnd'.2 h'
+    unfold FFV.normalizeFeature at ih
+    apply ih
+    intro B hB
+    have hne : A ≠ B := fun h => hnd'.1 (h ▸ hB)
+    split
+    · rw [getD_set_ne _ _ _ _ _ hne]; exact hinv B (List.mem_cons_of_mem _ hB)
+    · exact hinv B (List.mem_cons_of_mem _ hB)
+
+theorem initVariablesVerts_bridge (N : Num) (hc : AbsContract N) (order n : Nat) (sn : Bool) (proj rect : Nat → Nat → Cpx)
+    (fes : List VFeatEdge) (featV : List Nat) (hnd : featV.Nodup) :
+    C18S.initVariablesVerts N order sn proj rect fes featV (List.replicate n czero)
+      = FFV.initVertsFull order n sn (if FFV.guardedBranch sn order then contribsGuarded N proj fes else contribsPlain rect fes) featV
+          ((initVerts order n (FFV.guardedBranch sn order)
+            (if FFV.guardedBranch sn order then contribsGuarded N proj fes else contribsPlain rect fes)).map N.abs) := by
+  have hg : (sn && (order % 2 != 1)) = FFV.guardedBranch sn order := by
+    unfold FFV.guardedBranch
+    rcases Nat.mod_two_eq_zero_or_one order with h | h <;> simp [h]
+  unfold C18S.initVariablesVerts FFV.initVertsFull
+  rw [hg]
+  cases hb : FFV.guardedBranch sn order
+  · simp only [Bool.false_eq_true, if_false]
+    rw [initVerts_eq_foldl]
+    have := accPlain_bridge order rect fes (List.replicate n czero)
+    simp only [] at this
+    rw [← this]
+    exact normDyn_bridge N hc _ featV _ hnd (fun _ _ => rfl)
+  · simp only [if_true]
+    rw [initVerts_eq_foldl]
+    have := accGuarded_bridge N hc order proj fes (List.replicate n czero)
+    simp only [] at this
+    rw [← this]
+    exact normDyn_bridge N hc _ featV _ hnd (fun _ _ => rfl)
+
+/-! ## vertex-based `flag_singularities` -/
+open Mouette.FFV Mouette.Lemmas.C18V in
+theorem foldl_pair {α δ β : Type} (f : δ → α → δ) (g : α → β) : ∀ (l : List α) (d : δ) (a : List β),
+    l.foldl (fun (st : δ × List β) it => (f st.1 it, st.2 ++ [g it])) (d, a) = (l.foldl f d, a ++ l.map g)
+  | [], d, a => by simp
+  | x :: xs, d, a => by
+    simp only [List.foldl_cons, List.map_cons]
+    rw [foldl_pair f g xs]
+    simp
+
+theorem foldl_map' {α β δ : Type} (f : δ → β → δ) (h : α → β) : ∀ (l : List α) (d : δ),
+    l.foldl (fun d x => f d (h x)) d = (l.map h).foldl f d
+  | [], _ => rfl
+  | x :: xs, d => by simp only [List.foldl_cons, List.map_cons]; exact foldl_map' f h xs _
+
+theorem edgeRotV_src (P : FlagVertsIn) (A B : Nat) :
+    argminAbs ((List.range P.order).map (fun k => C18V.angleDiff
+      (C18V.matchFst (C18V.rootPhase (P.theta B) P.order 0) (P.tr B A) (C18V.rootPhase (P.theta A) P.order k) (P.tr A B))
+      (C18V.matchSnd (C18V.rootPhase (P.theta B) P.order 0) (P.tr B A) (C18V.rootPhase (P.theta A) P.order k) (P.tr A B))))
+    = FFV.edgeRotV P.order (vedgeOf P A B) := by
+  have := Mouette.Lemmas.C18B.candidates_bridge P.order (vedgeOf P A B)
+  unfold Mouette.Lemmas.C18B.candidatesSrc at this
+  unfold FFV.edgeRotV
+  rw [← this]
+  rfl
+
+theorem flagEdgeRotVerts_bridge (P : FlagVertsIn) (old : Option FFH.Attr) :
+    C18S.flagEdgeRotVerts P old = (dictOfM (resM P), FFH.flagInto C18H.vertsRotCleared old (attrWritesM P)) := by
+  rw [flagInto_split]
+  unfold C18S.flagEdgeRotVerts
+  have hstep : (fun (st : Dict × FFH.Attr) (it : Nat × Nat × Nat) =>
+      (dset (dset st.1 it.2.1 it.2.2 (argminAbs ((List.range P.order).map (fun k => C18V.angleDiff
+          (C18V.matchFst (C18V.rootPhase (P.theta it.2.2) P.order 0) (P.tr it.2.2 it.2.1) (C18V.rootPhase (P.theta it.2.1) P.order k) (P.tr it.2.1 it.2.2))
+          (C18V.matchSnd (C18V.rootPhase (P.theta it.2.2) P.order 0) (P.tr it.2.2 it.2.1) (C18V.rootPhase (P.theta it.2.1) P.order k) (P.tr it.2.1 it.2.2))))))
+        it.2.2 it.2.1 (-(argminAbs ((List.range P.order).map (fun k => C18V.angleDiff
+          (C18V.matchFst (C18V.rootPhase (P.theta it.2.2) P.order 0) (P.tr it.2.2 it.2.1) (C18V.rootPhase (P.theta it.2.1) P.order k) (P.tr it.2.1 it.2.2))
+          (C18V.matchSnd (C18V.rootPhase (P.theta it.2.2) P.order 0) (P.tr it.2.2 it.2.1) (C18V.rootPhase (P.theta it.2.1) P.order k) (P.tr it.2.1 it.2.2)))))),
+       st.2 ++ [(it.1, -(argminAbs ((List.range P.order).map (fun k => C18V.angleDiff
+          (C18V.matchFst (C18V.rootPhase (P.theta it.2.2) P.order 0) (P.tr it.2.2 it.2.1) (C18V.rootPhase (P.theta it.2.1) P.order k) (P.tr it.2.1 it.2.2))
+          (C18V.matchSnd (C18V.rootPhase (P.theta it.2.2) P.order 0) (P.tr it.2.2 it.2.1) (C18V.rootPhase (P.theta it.2.1) P.order k) (P.tr it.2.1 it.2.2))))))]))
+      = (fun st it => ((fun (d : Dict) (x : Nat × Nat × Nat) =>
+            dset (dset d x.2.1 x.2.2 (FFV.edgeRotV P.order (vedgeOf P x.2.1 x.2.2))) x.2.2 x.2.1 (-(FFV.edgeRotV P.order (vedgeOf P x.2.1 x.2.2)))) st.1 it,
+          st.2 ++ [(fun (x : Nat × Nat × Nat) => (x.1, -(FFV.edgeRotV P.order (vedgeOf P x.2.1 x.2.2)))) it])) := by
+    funext st it
+    simp only [edgeRotV_src]
+  show List.foldl _ _ _ = _
+  rw [hstep]
+  refine Eq.trans (foldl_pair (fun (d : Dict) (x : Nat × Nat × Nat) =>
+      dset (dset d x.2.1 x.2.2 (FFV.edgeRotV P.order (vedgeOf P x.2.1 x.2.2))) x.2.2 x.2.1 (-(FFV.edgeRotV P.order (vedgeOf P x.2.1 x.2.2))))
+    (fun (x : Nat × Nat × Nat) => (x.1, -(FFV.edgeRotV P.order (vedgeOf P x.2.1 x.2.2)))) P.edges (fun _ _ => 0) (FFH.flagInto true old [])) ?_
+  apply Prod.ext
+  · unfold dictOfM resM
+    exact foldl_map' (fun (d : Dict) (e : FFV.RE) => dset (dset d e.a e.b e.r) e.b e.a (-e.r))
+      (fun (it : Nat × Nat × Nat) => (vedgeOf P it.2.1 it.2.2).toRE P.order) P.edges _
+  · rfl
+
+theorem flagSingulsVerts_bridge (P : FlagVertsIn) (d : Dict) (old : Option FFH.Attr) :
+    C18S.flagSingulsVerts P d old = FFH.flagInto C18H.vertsSingulsCleared old (singulsVM P d) := by
+  rw [flagInto_split]
+  unfold C18S.flagSingulsVerts singulsVM
+  refine foldl_step_filterMap _ _ ?_ _ _
+  intro acc it
+  show (if P.thrTurns < faceAngleAdjM d P.curv it then acc ++ [(it.1, 1)]
+        else if faceAngleAdjM d P.curv it < -P.thrTurns then acc ++ [(it.1, -1)] else acc) = _
+  split
+  · rfl
+  · split <;> rfl
+
+/-! ### the dict is `rotD` of the model on a well-formed edge list -/
+def matchesB (u v : Nat) (e : FFV.RE) : Bool := (e.a == u && e.b == v) || (e.b == u && e.a == v)
+
+theorem matchesB_iff (u v : Nat) (e : FFV.RE) : matchesB u v e = true ↔ Mouette.Lemmas.C18V.Matches e u v := by
+  unfold matchesB Mouette.Lemmas.C18V.Matches
+  simp
+
+def dstep (d : Dict) (e : FFV.RE) : Dict := dset (dset d e.a e.b e.r) e.b e.a (-e.r)
+
+theorem dstep_nomatch (d : Dict) (e : FFV.RE) (u v : Nat) (h : ¬ Mouette.Lemmas.C18V.Matches e u v) : dstep d e u v = d u v := by
+  unfold dstep dset
+  unfold Mouette.Lemmas.C18V.Matches at h
+  have h1 : ¬ (u = e.b ∧ v = e.a) := fun hh => h (Or.inr ⟨hh.1.symm, hh.2.symm⟩)
+  have h2 : ¬ (u = e.a ∧ v = e.b) := fun hh => h (Or.inl ⟨hh.1.symm, hh.2.symm⟩)
+  simp only [h1, h2, if_false]
+
+theorem dstep_match (d : Dict) (e : FFV.RE) (hne : e.a ≠ e.b) (u v : Nat) (h : Mouette.Lemmas.C18V.Matches e u v) :
+    dstep d e u v = FFV.dirContrib e u v := by
+  unfold dstep dset FFV.dirContrib
+  rcases h with ⟨h1, h2⟩ | ⟨h1, h2⟩
+  · subst h1; subst h2
+    have : ¬ (e.a = e.b ∧ e.b = e.a) := fun hh => hne hh.1
+    simp [this]
+  · subst h1; subst h2
+    have : ¬ (e.a = e.b ∧ e.b = e.a) := fun hh => hne hh.1
+    simp [this]
+
+theorem foldl_dstep_nomatch : ∀ (es : List FFV.RE) (d : Dict) (u v : Nat), (∀ x ∈ es, ¬ Mouette.Lemmas.C18V.Matches x u v) →
+    (es.foldl dstep d) u v = d u v
+  | [], _, _, _, _ => rfl
+  | e :: es, d, u, v, h => by
+    simp only [List.foldl_cons]
+    rw [foldl_dstep_nomatch es (dstep d e) u v (fun x hx => h x (List.mem_cons_of_mem _ hx))]
+    exact dstep_nomatch d e u v (h e (by simp))
+
+theorem same_of_matches (e x : FFV.RE) (u v : Nat) (h1 : Mouette.Lemmas.C18V.Matches e u v) (h2 : Mouette.Lemmas.C18V.Matches x u v) :
+    FFV.sameUndirected e x = true := by
+  unfold FFV.sameUndirected
+  rcases h1 with ⟨a1, b1⟩ | ⟨a1, b1⟩ <;> rcases h2 with ⟨a2, b2⟩ | ⟨a2, b2⟩ <;> simp [a1, b1, a2, b2]
+
+theorem dict_eq_rotD : ∀ (es : List FFV.RE) (d : Dict) (u v : Nat), FFV.uniqueEdges es = true →
+    (es.foldl dstep d) u v = if es.any (matchesB u v) then FFV.rotD es u v else d u v
+  | [], _, _, _, _ => rfl
+  | e :: es, d, u, v, hu => by
+    unfold FFV.uniqueEdges at hu
+    simp only [Bool.and_eq_true, bne_iff_ne, ne_eq, Bool.not_eq_true'] at hu
+    obtain ⟨⟨hne, hnot⟩, hrest⟩ := hu
+    simp only [List.foldl_cons, List.any_cons]
+    have hrot : FFV.rotD (e :: es) u v = FFV.dirContrib e u v + FFV.rotD es u v := rfl
+    by_cases hm : Mouette.Lemmas.C18V.Matches e u v
+    · have hno : ∀ x ∈ es, ¬ Mouette.Lemmas.C18V.Matches x u v := by
+        intro x hx hmx
+        have := same_of_matches e x u v hm hmx
+        have h2 : es.any (FFV.sameUndirected e) = true := List.any_eq_true.mpr ⟨x, hx, this⟩
+        rw [hnot] at h2; exact Bool.noConfusion h2
+      rw [foldl_dstep_nomatch es _ u v hno, dstep_match d e hne u v hm]
+      simp only [(matchesB_iff u v e).mpr hm, Bool.true_or, if_true]
+      rw [hrot, Mouette.Lemmas.C18V.rotD_nomatch es u v hno]
+      simp
+    · have hb : matchesB u v e = false := by
+        cases h : matchesB u v e
+        · rfl
+        · exact absurd ((matchesB_iff u v e).mp h) hm
+      rw [dict_eq_rotD es (dstep d e) u v hrest]
+      simp only [hb, Bool.false_or]
+      rw [hrot, Mouette.Lemmas.C18V.dirContrib_nomatch e u v hm, dstep_nomatch d e u v hm]
+      simp
+
+theorem dictOfM_eq_rotD (es : List FFV.RE) (hu : FFV.uniqueEdges es = true) (u v : Nat) : dictOfM es u v = FFV.rotD es u v := by
+  have := dict_eq_rotD es (fun _ _ => 0) u v hu
+  unfold dictOfM
+  show (es.foldl dstep (fun _ _ => 0)) u v = _
+  rw [this]
+  split
+  · rfl
+  · rename_i h
+    symm
+    apply Mouette.Lemmas.C18V.rotD_nomatch
+    intro x hx hm
+    apply h
+    exact List.any_eq_true.mpr ⟨x, hx, (matchesB_iff u v x).mpr hm⟩
+
+/-! ## adjacency-form holonomy sum = edge-list `vertexAngle` -/
+def hterm (v : Nat) (p : Nat × Rat) : Rat := if p.1 < v then p.2 else -p.2
+
+theorem foldl_incident (v : Nat) : ∀ (es : List REdge) (d : Rat),
+    (incidentPairs es v).foldl (fun acc p => acc + hterm v p) d = d + es.foldr (fun e acc => edgeContrib e v + acc) 0
+  | [], d => by simp [incidentPairs]
+  | e :: es, d => by
+    have ih := foldl_incident v es
+    unfold incidentPairs at ih ⊢
+    simp only [List.filterMap_cons, List.foldr_cons]
+    by_cases ha : e.a = v
+    · simp only [ha, if_true, List.foldl_cons]
+      rw [ih]
+      have : edgeContrib e v = hterm v (e.b, e.rot) := by
+        unfold edgeContrib hterm
+        simp [C18.signPlusWhenOtherLess, ha]
+      rw [this]; ring
+    · by_cases hb : e.b = v
+      · simp only [ha, hb, if_true, if_false, List.foldl_cons]
+        rw [ih]
+        have : edgeContrib e v = hterm v (e.a, e.rot) := by
+          unfold edgeContrib hterm
+          have ha' : ¬ v = e.a := fun h => ha h.symm
+          simp [C18.signPlusWhenOtherLess, ha', hb]
+        rw [this]; ring
+      · simp only [ha, hb, if_false]
+        rw [ih]
+        have : edgeContrib e v = 0 := by
+          unfold edgeContrib
+          have ha' : ¬ v = e.a := fun h => ha h.symm
+          have hb' : ¬ v = e.b := fun h => hb h.symm
+          simp [ha', hb']
+        rw [this]; ring
+
+theorem holonomyAdj_refines (P : FlagFacesIn) (rot : Nat → Rat) (es : List REdge) (v : Nat)
+    (hperm : ((P.vertexEdges v).map (fun e => (P.otherEnd e v, rot e))).Perm (incidentPairs es v)) :
+    holonomyAdjM P rot v = vertexAngle P.defect es v := by
+  unfold holonomyAdjM vertexAngle
+  have h1 : (P.vertexEdges v).foldl (fun acc e => acc + (if P.otherEnd e v < v then rot e else -(rot e))) (P.defect v)
+      = ((P.vertexEdges v).map (fun e => (P.otherEnd e v, rot e))).foldl (fun acc p => acc + hterm v p) (P.defect v) := by
+    rw [List.foldl_map]; rfl
+  rw [h1, List.Perm.foldl_eq' hperm (fun x _ y _ z => by ring) (P.defect v), foldl_incident]
 
 end Mouette.Lemmas.C18S
